@@ -1,7 +1,6 @@
 //! Schema-evolution semantics at the level of histories (DESIGN §4.4) — independent of bytes.
 
 use crate::dec::ErrKind;
-use crate::genval::{gen_val, GenCtx};
 use crate::rng::Rng;
 use crate::ty::*;
 
@@ -292,40 +291,23 @@ pub const OUTCOME_CLASSES: [&str; 9] = [
     "dropped_field_ignored",
 ];
 
-/// pool of base types for history fields
-pub fn base_type_pool() -> Vec<Ty> {
-    vec![
-        Ty::U8,
-        Ty::I32,
-        Ty::U64,
-        Ty::Bool,
-        Ty::Str,
-        Ty::Char,
-        Ty::F64,
-        Ty::Seq(Ty::U16.boxed()),
-        Ty::Tuple(vec![Ty::U8, Ty::Str]),
-        Ty::Bytes,
-        Ty::Opt(Ty::I16.boxed()),
-        Ty::Map(Ty::Str.boxed(), Ty::U32.boxed()),
-        Ty::Unit,
-        Ty::DedupStr,
-    ]
-}
-
 /// a random legal history (DESIGN §4.4): chunk-0 order never changes, a field is removed / made transient only
-/// while it is the last one serialized in its chunk, names are never reused
-pub fn gen_history(id: &str, rng: &mut Rng, max_steps: usize) -> History {
-    let pool = base_type_pool();
-    let ctx = GenCtx { max_len: 3, allow_large: false, ..GenCtx::default() };
+/// while it is the last one serialized in its chunk, names are never reused.
+/// `pool` = base types of fields, `mk_default(declared type, rng)` draws default values.
+pub fn gen_history(
+    id: &str,
+    rng: &mut Rng,
+    max_steps: usize,
+    pool: &[Ty],
+    mk_default: &mut dyn FnMut(&Ty, &mut Rng) -> Val,
+) -> History {
     let mut counter = 0;
     let mut fresh = |rng: &mut Rng| -> HField {
         counter += 1;
-        // never DedupStr for fields that change across versions: dedup across definitions is out of scope (§9-2)
-        let mut base = rng.pick(&pool).clone();
-        if base == Ty::DedupStr {
-            base = Ty::Str;
-        }
-        HField { name: format!("f{counter}"), base, optional: rng.chance(1, 5) }
+        let base = rng.pick(pool).clone();
+        // a base type that already is an option is never declared optional on top
+        let optional = !matches!(base, Ty::Opt(_)) && rng.chance(1, 5);
+        HField { name: format!("f{counter}"), base, optional }
     };
     let n_init = 1 + rng.below(4) as usize;
     let initial: Vec<HField> = (0..n_init).map(|_| fresh(rng)).collect();
@@ -343,7 +325,7 @@ pub fn gen_history(id: &str, rng: &mut Rng, max_steps: usize) -> History {
                 let field = fresh(rng);
                 let declared = states.iter().filter(|f| f.presence != Presence::Removed).count();
                 let ty = if field.optional { Ty::Opt(field.base.clone().boxed()) } else { field.base.clone() };
-                let default = gen_val(&ty, rng, &ctx);
+                let default = mk_default(&ty, rng);
                 h.steps.push(HStep::Added { field, default, insert_at: rng.below(declared as u64 + 1) as usize });
             }
             4..=6 => {
@@ -376,7 +358,7 @@ pub fn gen_history(id: &str, rng: &mut Rng, max_steps: usize) -> History {
                         h.steps.push(HStep::Removed(f.name.clone()));
                     } else {
                         let ty = History::field_ty(f);
-                        let default = gen_val(&ty, rng, &ctx);
+                        let default = mk_default(&ty, rng);
                         h.steps.push(HStep::MadeTransient { name: f.name.clone(), default });
                     }
                 }
